@@ -341,8 +341,8 @@ func projectGen(t *testing.T, c *Chain, appState []byte) *genV {
 	require.NoError(t, json.Unmarshal(appState, &gs))
 	cdc := c.S.EncodingConfig.Codec
 	g := &genV{codes: map[uint64][]byte{}, canon: map[string]string{}, invalid: map[string]string{}, leaves: map[string]map[string]string{}}
-	for _, m := range []string{"evm", "feemarket", "cpc", "vauth"} {
-		g.canon[m] = canonJSON(gs[m])
+	for m, raw := range gs { // every section (the four custom modules' are the ones compared under the property's signatures)
+		g.canon[m] = canonJSON(raw)
 	}
 	var eg evmGenesis
 	require.NoError(t, cdc.UnmarshalJSON(gs["evm"], &eg))
